@@ -54,7 +54,11 @@ RULE = ("pairs of byte strings per file type (8 types incl. an unknown extension
         "and tags), truncation at every position of a small file, arbitrary bytes and token soups, and "
         "large / deeply nested / numerically extreme content as the value of a shared string, and every "
         "single-character edit (removed, doubled, 0, 9) of each format's value tokens (printf, plural, "
-        "escapes, entity/character references, placeables, variants) on the localized, reference and both sides; "
+        "escapes, entity/character references, placeables, variants) on the localized, reference and both sides, "
+        "and every one-step change of shape at the entry level (Fluent: attribute added/removed/duplicated, "
+        "value removed/replaced, message/term/attribute references and selects inside values and attributes; "
+        "DTD: extra entity references, elements, CSS; Android: extra format arguments, CDATA, inline markup, "
+        "resource types; properties: plural markers and printf arguments; added and replaced entries); "
         "each pair observed through compare / compare+merge / add / remove / lint_file in a worker "
         "process under a watchdog; distinct by (type, ref bytes, l10n bytes); non-trivial = the two "
         "files share at least one key or the localization has junk")
@@ -295,6 +299,133 @@ def near_misses(tok):
     return out
 
 
+# ---- shape edits at the entry level ---------------------------------------------------------
+FTL_PATTERNS = [b"Plain text", b"{ other }", b"{ -term }", b"{ other.title }", b"{ -term.attr }", b"{ missing }",
+                b"{ -nope }", b"{ $n ->\n        [one] a\n       *[other] b\n    }",
+                b"{ $n ->\n        [one] { other }\n       *[other] { -term }\n    }",
+                b"{ -term(case: \"x\") }", b"{ NUMBER($n) }", b"width: 10em", b"a { $x } b { other } c"]
+FTL_DEFS = b"other = O\n    .title = OT\n-term = T\n    .attr = a\n"
+# (identifier, value or None, [(attribute, pattern)])
+FTL_BASES = [("msg", b"Plain", []),
+             ("msg", b"Plain", [(b"title", b"Tip")]),
+             ("msg", None, [(b"label", b"L"), (b"accesskey", b"A")]),
+             ("msg", b"{ other } and { -term }", [(b"title", b"{ other.title }")]),
+             ("-brand", b"X", [(b"gender", b"m")]),
+             ("msg", b"{ $n ->\n        [one] a\n       *[other] b\n    }", [(b"style", b"width: 10em")])]
+
+
+def ftl_entry(ident, value, attrs):
+    out = ident.encode() + b" =" + (b" " + value if value is not None else b"") + b"\n"
+    for a, pat in attrs:
+        out += b"    ." + a + b" = " + pat + b"\n"
+    return out
+
+
+def ftl_shape_edits(base):
+    """every one-step change of shape of a Fluent entry: attribute added (each name x each pattern),
+    removed, duplicated, its pattern replaced; value removed, replaced, extended by a reference"""
+    ident, value, attrs = base
+    out = []
+    for name in (b"title", b"label", b"style", b"extra"):
+        for pat in FTL_PATTERNS:
+            out.append((ident, value, attrs + [(name, pat)]))
+            out.append((ident, value, [(name, pat)] + attrs))
+    for i in range(len(attrs)):
+        out.append((ident, value, attrs[:i] + attrs[i + 1:]))
+        out.append((ident, value, attrs[:i + 1] + attrs[i:]))
+        for pat in FTL_PATTERNS:
+            out.append((ident, value, attrs[:i] + [(attrs[i][0], pat)] + attrs[i + 1:]))
+    out.append((ident, None, attrs))
+    for pat in FTL_PATTERNS:
+        out.append((ident, pat, attrs))
+        if value is not None:
+            out.append((ident, value + b" " + pat, attrs))
+    return out
+
+
+# what a localizer adds to (or puts in place of) a value, per format
+VALUE_EXTRAS = {
+    "properties": [b"#1", b"#2", b";", b"#1;#1", b"#1;#2;#3;#4;#5;#6;#7", b"%S", b"%1$S", b"%2$S", b"%3$S", b"%%", b"%",
+                   b"%d", b"%1$d", b"\\u0041", b"\\"],
+    "dtd": [b"&brandShortName;", b"&other;", b"&title;", b"&amp;", b"&#38;", b"&", b"<b>x</b>", b"<a href='u'>l</a>",
+            b"<br/>", b"<b>", b"</b>", b"%S", b"%other;", b"10em", b"width: 10em; height: 2em", b"height: 3",
+            b"<![CDATA[x]]>", b"<!-- c -->", b"<?pi x?>", b"\\'", b"\\u00zz"],
+    "android": [b"%1$s", b"%2$d", b"%s", b"%3$s", b"%1$d", b"%1$.2f", b"%%", b"<![CDATA[x]]>", b"<![CDATA[%1$s]]> y",
+                b"<b>x</b>", b'<xliff:g id="x">%1$s</xliff:g>', b"\\'", b"'", b'""', b'"q"', b"@string/x",
+                b"&amp;", b"&lt;b&gt;", b"\\u0041", b"\\n"],
+    "ini": [b"%S", b"=", b"[x]", b";c", b"&a;"],
+    "inc": [b"%S", b"#define", b"# c", b"&a;"],
+    "po": [b"%s", b"%(n)s", b"%1$s", b'\\"', b"\\n", b"{0}"],
+    "ftl": [],
+    "unknown": [b"%S"],
+}
+VALUE_BASES = {
+    "properties": [b"Open %S", b"#1 file;#1 files", b"%1$S of %2$S"],
+    "dtd": [b"Open &brandShortName;", b"10em", b"width: 10em", b"<b>x</b> y"],
+    "android": [b"Open %1$s", b"plain", b"%1$s of %2$d", b"<![CDATA[x]]>"],
+}
+# whole entries a localizer adds, or writes in place of the shared entry `title`
+ENTRY_SNIPPETS = {
+    "properties": [b"title = again\n", b"title\n", b"title =\n", b"= v\n", b"# Localization_and_Plurals\n",
+                   b"title = a\\\n   b\n", b"! c\n"],
+    "dtd": [b'<!ENTITY title "again">\n', b"<!ENTITY title 'q'>\n", b'<!ENTITY % o SYSTEM "u">\n%o;\n',
+            b'<!ENTITY title "">\n', b"<!ENTITY title>\n", b'<!ENTITY other "&title;">\n', b"<!-- c -->\n"],
+    "android": [b'  <string name="title">again</string>\n', b'  <string name="title" translatable="false">v</string>\n',
+                b"  <string>v</string>\n", b'  <plurals name="title"><item quantity="one">x</item></plurals>\n',
+                b'  <string-array name="title"><item>x</item></string-array>\n', b'  <string name="title"/>\n',
+                b'  <string name="title"><![CDATA[a]]><![CDATA[b]]></string>\n', b"  <!-- c -->\n\n\n  <!-- d -->\n",
+                b'  <string name="title" xmlns:xliff="urn:x"><xliff:g>%1$s</xliff:g></string>\n'],
+    "ini": [b"title=again\n", b"[Other]\n", b"title\n", b"=v\n", b"; c\n"],
+    "inc": [b"#define title again\n", b"#filter emptyLines\n", b"#unfilter emptyLines\n", b"#include x\n",
+            b"#define title\n", b"#define\n"],
+    "po": [b'msgid "title"\nmsgstr "again"\n\n', b'msgctxt "c"\nmsgid "title"\nmsgstr "v"\n\n',
+           b'msgid "title"\nmsgstr ""\n\n', b'msgid "ti"\n"tle"\nmsgstr "a"\n"b"\n\n',
+           b'msgid "title"\nmsgid_plural "titles"\nmsgstr[0] "a"\nmsgstr[1] "b"\n\n', b'#, fuzzy\nmsgid "title"\nmsgstr "f"\n\n',
+           b'msgid "title"\n\n'],
+    "ftl": [b"title = again\n", b"-title = term\n", b"title =\n", b"### c\n", b"title = a\n    .x = 1\n    .x = 2\n"],
+    "unknown": [b"x\n"],
+}
+
+
+def shape_cases(ft, rng):
+    """(ref bytes, l10n bytes) for every shape edit, on the localized side, the reference side, both"""
+    out = []
+
+    def three(good, bad):
+        out.append((good, bad))
+        out.append((bad, good))
+        out.append((bad, bad))
+    if ft == "ftl":
+        for base in FTL_BASES:
+            good = FTL_DEFS + ftl_entry(*base) + b"k1 = value\n"
+            for e in ftl_shape_edits(base):
+                three(good, FTL_DEFS + ftl_entry(*e) + b"k1 = value\n")
+            # the same without the definitions the references point to
+            for e in ftl_shape_edits(base)[::7]:
+                three(ftl_entry(*base), ftl_entry(*e))
+    for v0 in VALUE_BASES.get(ft, [b"value"]):
+        note = b"see Localization_and_Plurals" if b"#1" in v0 else None
+        good = serialize(ft, [("title", v0, note), ("k1", b"value", None)], rng)
+        for x in VALUE_EXTRAS[ft]:
+            for v in (v0 + b" " + x, x + b" " + v0, x, v0 + b" " + x + b" " + x):
+                three(good, serialize(ft, [("title", v, note), ("k1", b"value", None)], rng))
+    plain = [("title", VALUE_BASES.get(ft, [b"value"])[0], None), ("k1", b"value", None)]
+    good = serialize(ft, plain, rng)
+    for snip in ENTRY_SNIPPETS[ft]:
+        head, _, tail = serialize(ft, plain[:1], rng), None, serialize(ft, plain[1:], rng)
+        if ft == "android":     # keep the snippet inside <resources>
+            body = good.split(b"<resources>\n", 1)
+            cut = body[1].index(b"</string>\n") + len(b"</string>\n")
+            variants = [body[0] + b"<resources>\n" + snip + body[1],
+                        body[0] + b"<resources>\n" + body[1][:cut] + snip + body[1][cut:],
+                        body[0] + b"<resources>\n" + snip + body[1][cut:]]
+        else:
+            variants = [snip + good, good + snip, head + snip + tail, snip + tail]
+        for v in variants:
+            three(good, v)
+    return out
+
+
 def mutate(rng, b, other):
     """one byte-level mutation"""
     b = bytearray(b)
@@ -411,6 +542,11 @@ def make_cases(chk):
                 add(ft, serialize(ft, good, rng), serialize(ft, recs(v), rng), "near-miss")
                 add(ft, serialize(ft, recs(v), rng), serialize(ft, good, rng), "near-miss")
                 add(ft, serialize(ft, recs(v), rng), serialize(ft, recs(v), rng), "near-miss")
+    # shape edits at the entry level (attributes, references, selects, extra arguments / markup /
+    # plural markers, added and replaced entries): small exhaustive enumeration, quick tier too
+    for ft in FT:
+        for ref, l10n in shape_cases(ft, rng):
+            add(ft, ref, l10n, "shape")
     for i in range(n_raw):
         ft = FT[i % len(FT)]
         r = rng.random()
